@@ -201,6 +201,17 @@ impl Outgoing {
         Some(())
     }
 
+    /// A subscription that has ended takes no part in the rewind on session save: its publishes
+    /// that are still unacknowledged stay in the window, since their acks are still expected, but
+    /// they lose their cursor like retained publishes
+    pub fn forget_cursors(&mut self, filter_idx: FilterIdx) {
+        for (_, idx, cursor) in self.inflight_buffer.iter_mut() {
+            if *idx == filter_idx {
+                *cursor = None;
+            }
+        }
+    }
+
     // Here we are assuming that the first unique filter_idx we find while iterating will have the
     // least corresponding cursor because of the way we insert into the inflight_buffer
     pub fn retransmission_map(&self) -> HashMap<FilterIdx, Cursor> {
